@@ -12,6 +12,7 @@ the right spine of open operator frames.
 import EvalexprVerif.Proofs.ParseExpr
 import EvalexprVerif.Proofs.AgreeOperator
 import EvalexprVerif.Proofs.AgreeToken
+import EvalexprVerif.Proofs.LexRoundtrip
 
 namespace Evalexpr.Spec.C02
 open Evalexpr Evalexpr.Spec
@@ -81,6 +82,16 @@ theorem C02_ast (e : Expr) :
   have := stripRoots_toTree (.paren e)
   simp only [toTree, toAstTree] at this
   rw [this]
+
+/-- **C02 (string level)**: ANY spelling of the tokens of the canonical rendering (identifiers and
+literals written as words that lex to them, strings quoted) with ANY admissible assignment of
+whitespace and comments precompiles to the promised tree (C07 round trip + `C02_parse`). -/
+theorem C02_string (e : Expr) (ps : List (Gap × PTok)) (g : Gap)
+    (hts : ps.map (·.2.tok) = render e) (hp : ∀ p ∈ ps, p.2.Printable) (ha : Admissible ps g) :
+    buildOperatorTree (renderFrom ps g) = .ok ⟨.rootNode, [toTree e]⟩ := by
+  unfold buildOperatorTree
+  rw [Evalexpr.Spec.C07_roundtrip ps g hp ha, hts]
+  exact C02_parse e
 
 /-- redundant parentheses never change the tree's meaning -/
 theorem C02_redundant_parens (e : Expr) : toAstTree (.paren e) = toAstTree e := rfl
